@@ -757,6 +757,14 @@ func (w *World) doWrite(cs *connState, op *WOp, where string) {
 		w.inCall[cs.task]++
 		n, err := c.Writev(bs)
 		w.inCall[cs.task]--
+		for i, b := range bs {
+			// the batch is the application's: still the slices it put there
+			if i < len(op.Segs) && len(b) != op.Segs[i] {
+				w.violate("C02", "writev-altered-batch", "conn %d: after Writev element %d of the caller's batch has %d bytes, the application had put %d there", cs.idx, i, len(b), op.Segs[i])
+				w.violate("C12", "writev-altered-batch", "conn %d: after Writev element %d of the caller's batch has %d bytes, the application had put %d there", cs.idx, i, len(b), op.Segs[i])
+				break
+			}
+		}
 		for _, b := range bs {
 			for i := range b {
 				b[i] = 0x99
